@@ -63,7 +63,10 @@ Qed.
 
 (* ---------- the direct writes of an initialisation ---------- *)
 Definition init_wr (W h : N) (w : wr) : Prop :=
-  exists a c, w = WWindow a (Some c) /\ a mod W = 0 /\ a + W - 1 <= h.
+  w = WSnapDel \/ exists a c, w = WWindow a (Some c) /\ a mod W = 0 /\ a + W - 1 <= h.
+
+Lemma init_wr_hc : forall W h w, init_wr W h w -> hc_free w.
+Proof. intros W h w [->|(a & c & -> & _)]; exact I. Qed.
 
 Lemma fill_w_ok : forall W d h cnt rf from, 0 < W -> rf_aligned W rf = true ->
   from + N.of_nat cnt <= h + 1 -> Forall (init_wr W h) (rf_fill_w W d rf from cnt).
@@ -74,7 +77,7 @@ Proof.
   destruct (rf_insert_shape W rf _ _ _ _ HW Ha E) as [Ha' Hws].
   apply Forall_app. split.
   - destruct Hws as [->|[c [-> Hto]]]; [constructor|]. constructor; [|constructor].
-    exists (rf_from rf), c. split; auto. split; [apply N.eqb_eq; exact Ha|lia].
+    right. exists (rf_from rf), c. split; auto. split; [apply N.eqb_eq; exact Ha|lia].
   - apply IHcnt; auto. lia.
 Qed.
 
@@ -90,7 +93,9 @@ Qed.
 Lemma reinit_w_ok : forall W d h, 0 < W -> consistent W d = true -> d_height d = Some h ->
   Forall (init_wr W h) (reinit_w W d).
 Proof.
-  intros W d h HW Hc Hh. unfold reinit_w. rewrite Hh.
+  intros W d h HW Hc Hh. unfold reinit_w. apply Forall_app. split.
+  { unfold snap_consume_w. rewrite Hh. destruct (d_snap d); repeat constructor. }
+  unfold reinit_fill_w. rewrite Hh.
   pose proof (proj1 (consistent_some W d h Hh) Hc) as [Hsn [hb I]].
   destruct I as [i_head0 i_full0 i_ent0 i_link0 i_state0 i_win0].
   assert (Hrb : Forall (init_wr W h) (rf_rebuild_w W d h)).
@@ -109,7 +114,9 @@ Qed.
 Lemma init_wr_consistent : forall W d h w, consistent W d = true -> d_height d = Some h -> init_wr W h w ->
   consistent W (apply_batch d [w]) = true /\ d_height (apply_batch d [w]) = Some h.
 Proof.
-  intros W d h w Hc Hh (a & c & -> & Ha & Hl). simpl. split; [|exact Hh].
+  intros W d h w Hc Hh [->|(a & c & -> & Ha & Hl)]; simpl; (split; [|exact Hh]).
+  { (* the consumed snapshot is deleted: everything else is untouched *)
+    unfold consistent in *. apply andb_true_iff in Hc as [_ Hc]. apply andb_true_iff. split; [reflexivity|exact Hc]. }
   pose proof (proj1 (consistent_some W d h Hh) Hc) as [Hsn [hb I]].
   destruct I as [i_head0 i_full0 i_ent0 i_link0 i_state0 i_win0].
   apply (proj2 (consistent_some W (set_windows d ((a, c) :: win_del a (d_windows d))) h Hh)). split; [exact Hsn|]. exists hb. constructor; auto.
@@ -217,8 +224,10 @@ Proof.
       * apply in_map_iff in Hin as [w [<- Hw]].
         pose proof (reinit_w_ok W _ h HW Hc1 Hh1) as F. rewrite Forall_forall in F.
         destruct (init_wr_consistent W d' h w Hc' Hh' (F w Hw)) as [X Y]. split; [split|]; auto.
-        rewrite hc_free_cont; auto. destruct (F w Hw) as (a & c & -> & _). repeat constructor.
-    + unfold reinit_w. rewrite Hh1. simpl. rewrite app_nil_r.
+        rewrite hc_free_cont; auto. constructor; [|constructor]. eapply init_wr_hc; eauto.
+    + assert (reinit_w W (apply_batches d bs0) = []) as ->.
+      { unfold reinit_w, snap_consume_w, reinit_fill_w. rewrite Hh1. reflexivity. }
+      simpl. rewrite app_nil_r.
       subst bs0. destruct (graceful && negb (rf_err m)); [|exact Hnil].
       apply Hone. split; [apply snap_consistent; auto|]. rewrite hc_free_cont; auto. repeat constructor.
 Qed.
@@ -229,12 +238,15 @@ Proof. intros. unfold apply_batches. apply fold_left_app. Qed.
 Lemma mem_sync_ext : forall W d d' m, d_height d' = d_height d -> mem_sync W d' m = mem_sync W d m.
 Proof. intros. unfold mem_sync. rewrite H. reflexivity. Qed.
 
-Lemma singles_height : forall ws d, Forall window_only ws ->
+Lemma singles_height : forall ws d, Forall hc_free ws ->
   d_height (apply_batches d (map (fun w => [w]) ws)) = d_height d.
 Proof.
   induction ws; simpl; intros d H; auto. inversion H; subst. rewrite IHws by auto.
-  destruct a; simpl in H2; try contradiction. destruct c; reflexivity.
+  apply (hc_free_fields [a] d). repeat constructor; auto.
 Qed.
+
+Lemma reinit_w_none : forall W d, d_height d = None -> reinit_w W d = [].
+Proof. intros W d Hh. unfold reinit_w, snap_consume_w, reinit_fill_w. rewrite Hh. reflexivity. Qed.
 
 Lemma step_good : forall W st o, 0 < W -> Good W st -> op_env (fst st) o = true -> Good W (step W st o).
 Proof.
@@ -256,8 +268,8 @@ Proof.
     + rewrite apply_batches_app. apply singles_height.
       destruct (d_height (apply_batches d bs0)) as [h|] eqn:Hh.
       * pose proof (reinit_w_ok W _ h HW Hc1 Hh) as F. eapply Forall_impl; [|exact F].
-        intros w (a & c & -> & _). exact I.
-      * unfold reinit_w. rewrite Hh. constructor.
+        intros w Hw. eapply init_wr_hc; eauto.
+      * rewrite reinit_w_none by auto. constructor.
   - unfold step in *. destruct (plan W o (fst st) (snd st)) as [bs m'] eqn:E. cbn [fst snd] in *.
     split; [|split]; auto.
     pose proof (sync_step W st o HW (proj2 (proj2 HG)) Hr) as S. unfold step in S. rewrite E in S. exact S.
@@ -282,8 +294,8 @@ Proof.
   assert (Hh : d_height (apply_batches d (map (fun w => [w]) (reinit_w W d))) = d_height d).
   { apply singles_height. destruct (d_height d) as [h|] eqn:Hh.
     - pose proof (reinit_w_ok W d h HW Hc Hh) as F. eapply Forall_impl; [|exact F].
-      intros w (a & c & -> & _). exact I.
-    - unfold reinit_w. rewrite Hh. constructor. }
+      intros w Hw. eapply init_wr_hc; eauto.
+    - rewrite reinit_w_none by auto. constructor. }
   assert (HD : DiskOK W (apply_batches d (map (fun w => [w]) (reinit_w W d)))).
   { destruct (d_height d) as [h|] eqn:Hh0.
     - pose proof (reinit_w_ok W d h HW Hc Hh0) as F. rewrite Forall_forall in F.
@@ -291,8 +303,8 @@ Proof.
       apply (batches_inv (DiskAt W h)); [|split; [split|]; auto].
       intros b Hin d' [[Hc' Hk'] Hh']. apply in_map_iff in Hin as [w [<- Hw]].
       destruct (init_wr_consistent W d' h w Hc' Hh' (F w Hw)) as [X Y]. split; [split|]; auto.
-      rewrite hc_free_cont; auto. destruct (F w Hw) as (a & c & -> & _). repeat constructor.
-    - unfold reinit_w. rewrite Hh0. simpl. split; auto. }
+      rewrite hc_free_cont; auto. constructor; [|constructor]. eapply init_wr_hc; eauto.
+    - rewrite reinit_w_none by auto. simpl. split; auto. }
   destruct HD as [A B]. split; [|split]; auto.
   rewrite (mem_sync_ext W d); auto. apply reinit_sync; auto.
 Qed.
